@@ -6,6 +6,7 @@ import (
 	"net/url"
 	"time"
 
+	"github.com/buildbuildio/pebbles/gqlerrors"
 	"github.com/buildbuildio/pebbles/requests"
 	"github.com/gobwas/ws"
 	"github.com/gobwas/ws/wsutil"
@@ -122,10 +123,22 @@ func (q *MultiOpQueryer) Subscribe(req *requests.Request, closeCh <-chan struct{
 			}
 
 			switch serverResp.Type {
+			case requests.SubError:
+				// the error message of the protocol carries one error object: it ends the operation,
+				// but not before the client has heard of it
+				var errMsg struct {
+					Payload *gqlerrors.Error `json:"payload"`
+				}
+				if err := json.Unmarshal(msg, &errMsg); err == nil && errMsg.Payload != nil {
+					select {
+					case resCh <- &requests.Response{Errors: gqlerrors.ErrorList{errMsg.Payload}}:
+					case <-closeCh:
+					}
+				}
+				return
 			case requests.SubComplete,
 				requests.SubConnectionError,
-				requests.SubConnectionTerminate,
-				requests.SubError:
+				requests.SubConnectionTerminate:
 				return
 			case requests.SubData:
 				select {
